@@ -121,3 +121,13 @@ func init() {
 		}
 	}
 }
+
+func init() {
+	dumpers["wasm"] = func(c *Ctx) {
+		w := Load(LoadConfig{Repo: c.Repo, Env: []string{"GOOS=js", "GOARCH=wasm"}, Patterns: []string{"./wasm"}, MinPkgs: 5})
+		fmt.Println(len(w.Mod), "module packages loaded for js/wasm")
+		for k := range w.Pkgs {
+			fmt.Println(" ", k)
+		}
+	}
+}
